@@ -36,8 +36,9 @@ def gen_script(rng, k):
     ops += contrib
     truebw = max([j - i for (i, j) in edges] + [0])
     bw = rng.choice([0, truebw + 1, truebw + 2, n])
+    zero_rhs = rng.random() < 0.12
     for i in range(n):
-        if rng.random() < 0.8:
+        if rng.random() < 0.8 and not zero_rhs:
             ops.append(("setb", i, cz(rng)))
     cons = []
     used = set()
